@@ -123,6 +123,7 @@ class ContractSet:
         self.contracts = {}   # key -> [ContractInfo]
         self.assumed = {}     # key -> [ContractInfo]
         self.lemmas = {}
+        self.lemma_classes = {}   # name -> ContractInfo (requires / claim / induction)
         self.files = {}
         for fn in sorted(os.listdir(self.directory)):
             if fn.endswith(".py") and not fn.startswith("_"):
@@ -166,6 +167,9 @@ class ContractSet:
             elif isinstance(node, ast.ClassDef):
                 for dec in node.decorator_list:
                     dn, args, kw = _dec(dec)
+                    if dn == "lemma":
+                        ci = ContractInfo("lemma:" + node.name, tuple(kw.get("props", ())), node, modname, assumed=False, opts=kw)
+                        self.lemma_classes[node.name] = ci
                     if dn in ("contract", "assumed"):
                         key = args[0]
                         ci = ContractInfo(key, tuple(kw.get("props", ())), node, modname, assumed=(dn == "assumed"), opts=kw)
